@@ -516,7 +516,7 @@ func driveVerify(c *ctx) {
 			xb, _ := p.XBytes()
 			Rs = append(Rs, xy{new(big.Int).SetBytes(xb), big.NewInt(int64(p.IsYOdd()))})
 		}
-		Rs = append(Rs, curvePointsWithSmallX(rng, 3)...)
+		Rs = append(Rs, curvePointsWithSmallX(rng, 10)...)
 		for _, R := range Rs {
 			// a key and (u1, u2) with u1 G + u2 Q = R: Q = dG, u2 random, u1 = k - u2 d where R = kG is not known for arbitrary R, so
 			// go the other way: recover Q from (R, r0, s0, e0) with the library's recovery, then re-target r with the same u1, u2
@@ -1166,7 +1166,7 @@ func driveKeys(c *ctx) {
 			_ = k
 		}
 	}
-	for _, p := range curvePointsWithSmallX(rng, 4) {
+	for _, p := range curvePointsWithSmallX(rng, 10) {
 		pub(encUnc(p), false)
 		pub(append(append([]byte{4}, be32(new(big.Int).Add(p.x, bigP))[:]...), be32(p.y)[:]...), false)
 		pub(append([]byte{byte(2 + p.y.Bit(0))}, be32(new(big.Int).Add(p.x, bigP))[:]...), false)
